@@ -705,7 +705,79 @@ func (g *c11Gen) enumerate() int {
 		c11Req("incall", kv("incall", jo(kv("all", jb(true)), kv("incall", ji(1))))),
 		c11Req("incall", kv("incall", jo(kv("changed", ja(c11U(kv("sessionId", js(c11Rs)), kv("inCall", jb(false)))))))),
 		c11Req("incall", kv("incall", jo(kv("all", jb(true)), kv("incall", ji(2))))))
+	g.nobody()
 	return len(g.cases) - n0
+}
+
+// user entries that reference no session: what fixupUserSessions drops (no
+// "sessionId", one that is not a string, the "not in the meeting" id, an id no
+// session is known for, the public session id in place of the room session id)
+// and what is not an entry at all
+func c11NobodyEntries() []c11Shape {
+	sid := func(v *vj) *vj { return c11U(kv("sessionId", v), kv("inCall", ji(7))) }
+	return []c11Shape{
+		{"empty", jo()}, {"null", jz()},
+		{"nosid", c11U(kv("userId", js("foo")), kv("inCall", ji(7)))},
+		{"lower", c11U(kv("sessionid", js(c11Rs)), kv("inCall", ji(1)))},
+		{"num", sid(ji(12345))}, {"float", sid(jf(15, -1))}, {"bool", sid(jb(true))}, {"sid-null", sid(jz())},
+		{"arr", sid(ja(js(c11Rs)))}, {"obj", sid(jo(kv("id", js(c11Rs))))},
+		{"zero", sid(js("0"))}, {"unknown", sid(js("nobody"))}, {"emptystr", sid(js(""))},
+		{"public", sid(js(c11Sid))}, {"rs-prefix", sid(js(c11Rs + "x"))},
+		{"perm", c11U(kv("sessionId", js("nobody")), kv("permissions", ja(js("control"))))},
+	}
+}
+
+// "incall" (all not true) and "participants" requests whose entries all resolve to
+// nobody - alone in "users", in "changed", in both, several together, with the room
+// existing or not and with the client in the call or not - must reach no client;
+// the same entries next to one valid entry must still produce the update.
+func (g *c11Gen) nobody() {
+	valid := c11U(kv("sessionId", js(c11Rs)), kv("inCall", ji(1)))
+	entries := c11NobodyEntries()
+	var all []*vj
+	for _, e := range entries {
+		all = append(all, e.v)
+	}
+	for _, ty := range []string{"incall", "participants"} {
+		req := func(members ...vjm) *vj {
+			if ty == "incall" {
+				members = append([]vjm{kv("incall", ji(7))}, members...)
+			}
+			return c11Req(ty, kv(ty, jo(members...)))
+		}
+		var silent []*vj
+		for _, e := range entries {
+			u, c, b := req(kv("users", ja(e.v))), req(kv("changed", ja(e.v))), req(kv("changed", ja(e.v)), kv("users", ja(e.v)))
+			g.add("d4/nobody/"+ty+"/users/"+e.name, true, true, u)
+			g.add("d4/nobody/"+ty+"/changed/"+e.name, true, true, c)
+			g.both("d4/nobody/"+ty+"/both/"+e.name, b)
+			silent = append(silent, u, c)
+			// next to one valid entry the request is a real one
+			g.add("d4/nobody/"+ty+"/mixed-users/"+e.name, true, true, req(kv("users", ja(e.v, valid))))
+			g.add("d4/nobody/"+ty+"/mixed-changed/"+e.name, true, true, req(kv("changed", ja(valid, e.v)), kv("users", ja(e.v))))
+		}
+		g.both("d4/nobody/"+ty+"/all-entries", req(kv("changed", ja(all[2:]...)), kv("users", ja(all[2:]...))))
+		g.add("d4/nobody/"+ty+"/all-entries-valid", true, true, req(kv("changed", ja(all[2:]...)), kv("users", ja(append(append([]*vj{}, all[2:]...), valid)...))))
+		g.add("d4/nobody/"+ty+"/all-false", true, true, req(kv("all", jb(false)), kv("users", ja(all[2], all[10]))))
+		g.add("d4/nobody/"+ty+"/all-null", true, true, req(kv("all", jz()), kv("changed", ja(all[4], all[11]))))
+		g.add("d4/nobody/"+ty+"/users-null", true, true, req(kv("users", jz()), kv("changed", ja(all[0]))))
+		g.add("d4/nobody/"+ty+"/users-twice", true, true, req(kv("users", ja(valid)), kv("users", ja(all[10]))))
+		g.add("d4/nobody/"+ty+"/users-twice2", true, true, req(kv("users", ja(all[10])), kv("users", ja(valid))))
+		g.add("d4/nobody/"+ty+"/many", true, true, req(kv("users", jrepv(500, all[11])), kv("changed", jrepv(500, all[10]))))
+		// the same with the client in the call (a request that is wrongly published
+		// with empty lists then also shows as a participants update in that state):
+		// everybody joins, the requests that name nobody, a real one at the end
+		join := c11Req("incall", kv("incall", jo(kv("all", jb(true)), kv("incall", ji(1)))))
+		for i := 0; i < len(silent); i += 8 {
+			j := i + 8
+			if j > len(silent) {
+				j = len(silent)
+			}
+			docs := append([]*vj{join}, silent[i:j]...)
+			docs = append(docs, req(kv("changed", ja(c11U(kv("sessionId", js(c11Rs)), kv("inCall", ji(0))))), kv("users", ja(all[3]))))
+			g.add("d4/nobody/"+ty+"/in-call", true, true, docs...)
+		}
+	}
 }
 
 func c11membervalue(obj *vj, k string) *vj {
@@ -818,6 +890,39 @@ func (g *c11Gen) random(r *vrng) {
 		doc := c11Req(ty, kv(ty, c11Default(ty)))
 		if ty == "incall" && r.chance(40) {
 			doc = c11Req(ty, kv(ty, jo(kv("all", jb(true)), kv("incall", ji(int64(r.intn(4)))))))
+		}
+		if (ty == "incall" || ty == "participants") && r.chance(35) {
+			// user lists drawn from the entries that reference nobody, now and then a valid one
+			pool := c11NobodyEntries()
+			list := func() *vj {
+				var l []*vj
+				for k := r.intn(4); k > 0; k-- {
+					if r.chance(15) {
+						l = append(l, c11U(kv("sessionId", js(c11Rs)), kv("inCall", ji(int64(r.intn(3))))))
+					} else {
+						l = append(l, pool[r.intn(len(pool))].v)
+					}
+				}
+				return ja(l...)
+			}
+			sub := jo()
+			if ty == "incall" {
+				sub.O = append(sub.O, kv("incall", ji(int64(r.intn(8)))))
+			}
+			if r.chance(80) {
+				sub.O = append(sub.O, kv("users", list()))
+			}
+			if r.chance(80) {
+				sub.O = append(sub.O, kv("changed", list()))
+			}
+			if r.chance(15) {
+				sub.O = append(sub.O, kv("all", pick(r, []*vj{jb(false), jz()})))
+			}
+			doc = c11Req(ty, kv(ty, sub))
+			if r.chance(60) {
+				docs = append(docs, doc)
+				continue
+			}
 		}
 		for k := r.intn(4); k > 0; k-- {
 			doc = c11Mutate(r, doc, 2)
